@@ -8,11 +8,12 @@ from engine import State, Unsupported
 import contracts as C
 import contracts_async as CA
 from specs.codec import run_async, _ok_payload, _is_err_concrete
+import specs.dispatch  # noqa: registers the "sym_result" awaiter
 
 BENIGN = re.compile(r'Clone>::clone|Deref|format|Debug|Display|err_msg|drop|Instant|elapsed|GenericCounter|inc_by|thread_rng|rand|SystemTime')
 
 
-def spec_copy_half_stream(ck, max_turns=2):
+def spec_copy_half_stream(ck, max_turns=2, io_errors=False):
     fn = ck.find(lambda: ck.db.free('copy_half'), 'copy_half')
     if fn is None:
         return
@@ -29,6 +30,7 @@ def spec_copy_half_stream(ck, max_turns=2):
     inp = Bytes.symbolic('sent_by_source', 'in')
     ex.assume(st, z3.ULE(inp.len, BV(6, 64)))
     ex.read_budget = max_turns
+    ex.io_errors = io_errors
     src_cell = st.alloc(Stream('source', inp))
     dst_cell = st.alloc(Stream('destination', Bytes.from_terms([], 'in')))
     count0 = z3.BitVec('bytes_counted_before', 64)
@@ -93,6 +95,8 @@ def relay_replay_plan(ob):
     f = ob.finding
     if f is not None and ob.label.startswith('C01/handover/'):
         return 'relay', {'driver': 'handover', 'args': {}}, lambda o: o.get('handover_complete') is False
+    if f is not None and (ob.target or '') == 'copy_half abort' and ob.label.startswith('C04/relay/'):
+        return 'relay', {'driver': 'copy_half_reset', 'args': {}}, lambda o: o.get('ok') is True and o.get('source_was_reset') is True
     if f is None or (ob.target or '') != 'copy_half':
         return None
     i = f.inputs
@@ -164,6 +168,8 @@ def check_handover(ck):
         c, s = o.mem[ccell], o.mem[scell]
         lost = dict((e[1], e) for e in o.trace if e[0] == 'read-ahead-discarded')
         for name, me, peer, inp, pos0 in (('client', c, s, cin, cpos), ('server', s, c, sin, spos)):
+            # exactly once: what the hand-over has already written to the other side is no longer in front of the relay's reader
+            ex.prove(o, 'C01/handover/bytes-forwarded-by-the-hand-over-are-not-delivered-again', me.pos == pos0 + peer.out.len)
             e = lost.get(name)
             if e is None:
                 # the reader was not taken apart on this path: nothing may have been lost
@@ -221,3 +227,32 @@ def check_copy_bidi_completion(ck):
         ck.add('C04/copy_bidi/reachability', 'vacuous', 'no path through copy_bidi finishes')
     ck.absorb(ex, 'copy_bidi (completion)', [o for o, _ in outs])
     ck.bounds['copy_bidi-completion'] = 'copy_bidi with both copy_half futures arbitrary (each poll: not ready, Ok or Err), <= 3 turns of the select loop'
+
+
+def check_copy_half_abort(ck):
+    """an I/O error on either socket (the peer reset the connection, ...) ends that direction with an error -- it is not
+    mistaken for an orderly end of stream: copy_bidi then returns at once and both sockets are dropped"""
+    r = spec_copy_half_stream(ck, max_turns=1, io_errors=True)
+    if r is None:
+        return
+    ex, outs, m = r
+    n = 0
+    for o, res in outs:
+        if o.status != 'returned' or res is None:
+            continue
+        errs = [e for e in o.trace if e[0] == 'io-error']
+        if not errs:
+            continue
+        n += 1
+        ok, _ = _ok_payload(res)
+        ex.prove(o, 'C04/relay/a-failed-read-or-write-ends-the-direction-with-an-error', z3.Not(ok))
+        if errs[0][1] == 'read':
+            evs = [e[0] for e in o.trace]
+            ex.prove(o, 'C04/relay/an-aborted-source-is-not-passed-on-as-end-of-stream', 'shutdown' not in evs[evs.index('io-error'):])
+    if not n:
+        ck.add('C04/relay/abort/reachability', 'vacuous', 'no path with an injected I/O error returned')
+    for f in ex.findings:
+        if not hasattr(f, 'target'):
+            f.target = 'copy_half abort'
+    ck.absorb(ex, 'copy_half (I/O errors injected)', [o for o, _ in outs])
+    ck.bounds['copy_half-abort'] = 'as copy_half, one piece, every read / write / flush may fail with an error of any ErrorKind'
